@@ -153,8 +153,9 @@ def check_stop(ctx, case):
     res = r[3]
     exact = np.array([dc.comp_integral(c, a, b) for c in comps[1:]])
     got = res[1:]
+    atol = 1e-13 * min(1.0, float(np.prod(b - a)))      # absolute tolerance relative to the size of the integrals (box volume)
     bad = [(i, comps[1 + i] if i < nb else "combo", float(got[i]), float(exact[i])) for i in range(nb)
-           if not close(got[i], exact[i], rel=1e-10, abs_=1e-13)]
+           if not close(got[i], exact[i], rel=1e-10, abs_=atol)]
     wc = "%s-%s" % (st, "v%s" % cfg["opts"].get("version") if st != "cell" else "cell")
     if st == "dimwise":
         if cfg["opts"].get("rebalancing", True):
@@ -172,7 +173,7 @@ def check_stop(ctx, case):
         bad = [x for x in bad if not is_corner(x[1])]
     ctx.check(clause_main, not bad, site, wc, "%d of %d exact functions lost after %d evaluations, e.g. (index, function, reported, analytic) %s"
               % (len(bad), nb, len(r[5]), bad[:3]))
-    badc = [(i, float(got[i]), float(exact[i])) for i in range(nb, len(exact)) if not close(got[i], exact[i], rel=1e-10, abs_=1e-13)]
+    badc = [(i, float(got[i]), float(exact[i])) for i in range(nb, len(exact)) if not close(got[i], exact[i], rel=1e-10, abs_=atol)]
     ctx.check("B.int.combo", not badc, site, wc, "linear combinations not integrated exactly: %s" % badc)
     if st == "dimwise" and kind == "hat":
         P = [tuple(float(x) for x in row) for row in case["probe"]]
@@ -280,6 +281,17 @@ def core_configs(ctx):
         cfg = {"strategy": "dimwise", "a": [0.0, 0.0], "b": [1.0, 1.0], "norm": "inf", "grid": {"type": "GlobalTrapezoidal", "boundary": boundary},
                "opts": {"version": 6, "rebalancing": True}}
         out.append((cfg, (1, 2), ["addgauss", [200.0, 200.0], [0.9, 0.1]]))
+    # very small boxes: the tensor-product quadrature weights (cell volumes) lie far below numpy's default absolute tolerances (missed seed C04_9: a
+    # "weight is zero" test with isclose drops every weight below 1e-8)
+    for (bx, st) in (([1e-3, 2e-3], "dimwise"), ([5e-5, 1e-4], "dimwise"), ([1e-3, 2e-3], "extend"), ([1e-2, 1e-2, 2e-2], "dimwise")):
+        d = len(bx)
+        if d == 3 and ctx.quick():
+            continue
+        if st == "dimwise":
+            cfg = {"strategy": "dimwise", "a": [0.0] * d, "b": bx, "norm": "inf", "grid": {"type": "GlobalTrapezoidal", "boundary": True}, "opts": {"version": 6, "rebalancing": False}}
+        else:
+            cfg = {"strategy": "extend", "a": [0.0] * d, "b": bx, "norm": "inf", "grid": {"type": "Trapezoidal", "boundary": True}, "opts": {"version": 0, "number_of_refinements_before_extend": 1}}
+        out.append((cfg, (1, 2), ["gauss", [60.0] * d, [0.8, 0.3, 0.5][:d]], {"max_steps": 3}))
     return out
 
 
@@ -307,6 +319,13 @@ def anchor_cases():
         {"kind": "stop", "cfg": dict(base, opts={"version": 6, "rebalancing": True}), "lmin": 1, "lmax": 2, "driver": drv, "combo_seed": 1, "probe": lat2, "max": 52, "index": 2},
         {"kind": "stop", "cfg": dict(base, opts={"version": 2, "rebalancing": False}), "lmin": 1, "lmax": 3, "driver": drv, "combo_seed": 1, "probe": lat3, "max": 150, "index": 5},
         {"kind": "stop", "cfg": dict(base, opts={"version": 6, "rebalancing": False}), "lmin": 1, "lmax": 3, "driver": drv, "combo_seed": 1, "probe": lat3, "max": 150, "index": 5},
+    ] + [
+        # very small boxes: every tensor-product weight lies below numpy's default absolute tolerance 1e-8 (missed seed C04_9)
+        {"kind": "stop", "cfg": dict(base, b=[5e-5, 1e-4], strategy=st_, grid=g_, opts=o_), "lmin": 1, "lmax": 2, "driver": ["gauss", [60.0, 60.0], [0.8, 0.3]], "combo_seed": 3,
+         "probe": [[5e-5 * x, 1e-4 * y] for x, y in lat2], "max": mx, "index": ix}
+        for st_, g_, o_ in (("dimwise", grid, {"version": 6, "rebalancing": False}),
+                            ("extend", {"type": "Trapezoidal", "boundary": True}, {"version": 0, "number_of_refinements_before_extend": 1}))
+        for mx, ix in ((0, 0), (40, 3))
     ]
 
 
